@@ -309,7 +309,9 @@ pub fn run(ctx: &Ctx) {
     ctx.assume("a 12-byte window match by chance has probability < 2^-50 per file");
     library_block(ctx);
     clear_field_history(ctx);
-    cli_block(ctx);
+    if !crate::lib_only() {
+        cli_block(ctx);
+    }
     ctx.require("key mode: scan + length law + identity swap ok", 50);
     ctx.require("password mode: length law", 10);
     ctx.require("cli: scan + length law ok", 5);
